@@ -127,7 +127,7 @@ def SpeciesWF (c : L0) : Prop :=
 theorem reparseVal_qtyEnv {χ} {dim : Dim} {v : Val χ} (r : χ → χ) (h : QtyEnvWF dim v) : reparseValWith r v = reparseVal v := by
   rcases h with ⟨x, rfl, _⟩ | ⟨m, rfl, _⟩ <;> rfl
 
-theorem species_roundtrip' (parent : Sys) (c : L0) (h : SpeciesWF c) :
+theorem species_roundtrip_wf (parent : Sys) (c : L0) (h : SpeciesWF c) :
     speciesFromDict parent (speciesToDict c) = .ok (rp0 c) := by
   obtain ⟨us, l, vD, vρ, vc, rfl, hus, hl, hD, hρ, hc⟩ := h
   unfold speciesFromDict speciesToDict
@@ -156,7 +156,7 @@ theorem species_roundtrip' (parent : Sys) (c : L0) (h : SpeciesWF c) :
   rcases hc with ⟨b, rfl⟩ | ⟨kv, rfl⟩ <;>
     simp only [rp0, reparseObj, speciesObj', List.map_cons, List.map_nil, e1, e2] <;> rfl
 
-theorem species_reserialise' (c : L0) (h : SpeciesWF c) : speciesToDict (rp0 c) = speciesToDict c := by
+theorem species_reserialise_wf (c : L0) (h : SpeciesWF c) : speciesToDict (rp0 c) = speciesToDict c := by
   obtain ⟨us, l, vD, vρ, vc, rfl, _, _, hD, hρ, hc⟩ := h
   unfold speciesToDict
   rw [speciesFields_eq]
@@ -178,7 +178,7 @@ def ReactionWF (c : L0) : Prop :=
   ∃ us l s p vkf vkr, c = reactionObj us l s p vkf vkr ∧ us.valid = true ∧ LabelWF l ∧
     QtyEnvWF (kDim (sidesOrder s)) vkf ∧ QtyEnvWF (kDim (sidesOrder p)) vkr
 
-theorem reaction_roundtrip' (parent : Sys) (c : L0) (h : ReactionWF c) :
+theorem reaction_roundtrip_wf (parent : Sys) (c : L0) (h : ReactionWF c) :
     reactionFromDict parent (reactionToDict c) = .ok (rp0 c) := by
   obtain ⟨us, l, s, p, vkf, vkr, rfl, hus, hl, hf, hr⟩ := h
   rw [reaction_roundtrip parent us l s p vkf vkr hus hl hf hr]
@@ -187,7 +187,7 @@ theorem reaction_roundtrip' (parent : Sys) (c : L0) (h : ReactionWF c) :
   rcases hl with rfl | ⟨l', rfl, _⟩ <;>
     simp only [rp0, reparseObj, reactionObj, List.map_cons, List.map_nil, e1, e2] <;> rfl
 
-theorem reaction_reserialise' (c : L0) (h : ReactionWF c) : reactionToDict (rp0 c) = reactionToDict c := by
+theorem reaction_reserialise_wf (c : L0) (h : ReactionWF c) : reactionToDict (rp0 c) = reactionToDict c := by
   obtain ⟨us, l, s, p, vkf, vkr, rfl, _, hl, hf, hr⟩ := h
   have e1 := reparseVal_qtyEnv (fun e : Empty => e) hf
   have e2 := reparseVal_qtyEnv (fun e : Empty => e) hr
@@ -364,12 +364,12 @@ theorem network_roundtrip (parent : Sys) (base : Option String) (fs : FS) (o : L
         intro c hc
         show level0Child "species" us base (writeL0 us c) = _
         rw [writeL0_species us c (hsp c hc), level0Child_species]
-        exact species_roundtrip' us c (hsp c hc)
+        exact species_roundtrip_wf us c (hsp c hc)
       · refine readKind_children _ _ (writeL0 us) "reaction" rs rp0 ?_
         intro c hc
         show level0Child "reaction" us base (writeL0 us c) = _
         rw [writeL0_reaction us c (hrs c hc), level0Child_reaction]
-        exact reaction_roundtrip' us c (hrs c hc)
+        exact reaction_roundtrip_wf us c (hrs c hc)
       · exact readKind_strList _ _ (writeL0 us) envs hne hdef)
   rw [this]
   have hl : ∀ l : List L0, (l.map rp0).map labelOf = l.map labelOf := by
@@ -400,7 +400,7 @@ theorem network_reserialise (o : L1) (h : NetworkWF o) : networkToDict (rp1 o) =
     obtain ⟨us', l, vD, vρ, vc, rfl, hus', hl, hD, hρ, hvc⟩ := hsp c hc
     have e : writeL0 us (rp0 (speciesObj' us' l vD vρ vc)) = speciesToDict (rp0 (speciesObj' us' l vD vρ vc)) := by
       rcases hvc with ⟨b, rfl⟩ | ⟨kv, rfl⟩ <;> rfl
-    rw [e, species_reserialise' _ ⟨us', l, vD, vρ, vc, rfl, hus', hl, hD, hρ, hvc⟩]
+    rw [e, species_reserialise_wf _ ⟨us', l, vD, vρ, vc, rfl, hus', hl, hD, hρ, hvc⟩]
     rfl
   · show Json.arr _ = Json.arr _
     congr 1
@@ -410,7 +410,7 @@ theorem network_reserialise (o : L1) (h : NetworkWF o) : networkToDict (rp1 o) =
     simp only [Function.comp]
     obtain ⟨us', l, s, p, vkf, vkr, rfl, hus', hl, hf, hr⟩ := hrs c hc
     have e : writeL0 us (rp0 (reactionObj us' l s p vkf vkr)) = reactionToDict (rp0 (reactionObj us' l s p vkf vkr)) := rfl
-    rw [e, reaction_reserialise' _ ⟨us', l, s, p, vkf, vkr, rfl, hus', hl, hf, hr⟩]
+    rw [e, reaction_reserialise_wf _ ⟨us', l, s, p, vkf, vkr, rfl, hus', hl, hf, hr⟩]
     rfl
   · rfl
 
